@@ -95,8 +95,43 @@ fn zst_operands(st: &mut Stream, rng: &mut Rng) {
     zst_case!("map over gen", signal::gen(feed_next).map(|f: F| tweak(f, 1)), Dyn(Box::new(signal::gen(feed_next))).map(|f: F| tweak(f, 1)));
 }
 
+/// STATEFUL closures over sources with RUNS of identical frames (silence, DC, a stepped control; `delay(k)` makes such
+/// runs inside the library): `map` / `zip_map` / `inspect` call the user's closure exactly once per frame, in order,
+/// whether or not the frame equals the one before it
+fn stateful_over_repeats(st: &mut Stream, rng: &mut Rng) {
+    let n = 6 + rng.usize_below(10);
+    let mut frames: Vec<F> = Vec::new();
+    while frames.len() < n { let f = gen_f(rng); for _ in 0..(1 + rng.usize_below(4)) { frames.push(f); } }
+    frames.truncate(n);
+    let dl = 2 + rng.usize_below(3);
+    let case = format!("typed {} stateful closures over the source {:?} (runs of identical frames), also behind delay({})", NAME, frames, dl);
+    let r = guarded(|| {
+        let mut k1 = 0usize;
+        let a: Vec<F> = signal::from_iter(frames.clone()).map(|f: F| { k1 += 1; tweak(f, k1) }).take(n).collect();
+        let mut k2 = 0usize;
+        let b: Vec<F> = signal::from_iter(frames.clone()).delay(dl).map(|f: F| { k2 += 1; tweak(f, k2) }).take(n + dl).collect();
+        let mut k3 = 0usize;
+        let c: Vec<F> = signal::from_iter(frames.clone()).zip_map(signal::from_iter(frames.clone()), |x: F, y: F| { k3 += 1; tweak(comb(x, y), k3) }).take(n).collect();
+        let mut k4 = 0usize;
+        let d: Vec<F> = signal::from_iter(frames.clone()).inspect(|_f: &F| { k4 += 1; }).take(n).collect();
+        (a, b, c, d, k1, k2, k3, k4)
+    });
+    st.count(&format!("typed_stateful_closures_over_repeated_frames_{}", NAME));
+    match r {
+        None => st.oracle_fail("panic", &case, "no panic", "panic"),
+        Some((a, b, c, d, k1, k2, k3, k4)) => {
+            let eqf = gen_const_eq();
+            let wa: Vec<F> = frames.iter().enumerate().map(|(i, f)| tweak(*f, i + 1)).collect();
+            let wb: Vec<F> = (0..n + dl).map(|i| tweak(if i < dl { eqf } else { frames[i - dl] }, i + 1)).collect();
+            let wc: Vec<F> = frames.iter().enumerate().map(|(i, f)| tweak(comb(*f, *f), i + 1)).collect();
+            if a == wa && b == wb && c == wc && d == frames && (k1, k2, k3, k4) == (n, n + dl, n, n) { st.oracle_ok(4 * n as u64); }
+            else { st.oracle_fail(&format!("{}: a stateful closure given to map / zip_map / inspect was not called exactly once per frame in order (calls {} {} {} {} for {} / {} / {} / {} frames), or the outputs differ", NAME, k1, k2, k3, k4, n, n + dl, n, n), &case, &format!("{:?} | {:?} | {:?}", wa, wb, wc), &format!("{:?} | {:?} | {:?}", a, b, c)); }
+        }
+    }
+}
+
 pub fn run_all(st: &mut Stream, rng: &mut Rng, rounds: usize) {
-    for _ in 0..rounds { zst_operands(st, rng); }
+    for _ in 0..rounds { zst_operands(st, rng); stateful_over_repeats(st, rng); }
     for _ in 0..rounds {
         let len = rng.usize_below(7);
         let frames: Vec<F> = (0..len).map(|_| gen_f(rng)).collect();
